@@ -109,6 +109,8 @@ type zzBroker struct {
 	tokens    int
 	tokenErrs []error
 	autoPong  bool
+	maxDials  int // dials beyond this index park for ever (reconnect-storm limiter), default 12
+	muteFrom  int // connections with index >= muteFrom (> 0) never answer the connect request
 	handler   func(t *zzTr, m message.Message) bool // returns true if handled
 }
 
@@ -141,6 +143,15 @@ func (b *zzBroker) Dial(c transport.DialConfig) (transport.Transport, error) {
 	}
 	h := b.onDial
 	b.mu.Unlock()
+	limit := b.maxDials
+	if limit == 0 {
+		limit = 12
+	}
+	if k >= limit {
+		// a reconnect storm: park the dialer so that the scenario quiesces and its assertions are
+		// evaluated (instead of the run ending at the step limit)
+		select {}
+	}
 	if h != nil {
 		h(k)
 	}
@@ -171,6 +182,9 @@ func (b *zzBroker) serve(t *zzTr, m message.Message) {
 	case *message.ConnectRequest:
 		if r.ExtensionFields != nil {
 			t.token = r.ExtensionFields.AccessToken
+		}
+		if b.muteFrom > 0 && len(b.trs) > b.muteFrom {
+			return // accepted the transport, never completes the handshake
 		}
 		t.in <- zzEncode(&message.ConnectResponse{RequestID: r.RequestID, ProtocolVersion: r.ProtocolVersion, ResultCode: message.ResultCodeSucceeded})
 		return
